@@ -170,9 +170,6 @@ impl Storage {
                     let value = Value::Transaction(0, tx_index as TxIndex, &tx);
                     batch.put_kv(key, value).expect("batch put should be ok");
                 });
-            batch
-                .put_kv(genesis_block_key, genesis_hash_and_txs_hash.as_slice())
-                .expect("batch put should be ok");
             #[cfg(ckb_light_client_verif)]
             crate::verif_hooks::point("write", "init_genesis_block:batch");
             batch.commit().expect("batch commit should be ok");
@@ -192,6 +189,11 @@ impl Storage {
             self.update_max_check_point_index(0);
             self.update_check_points(0, &[genesis_block_filter_hash]);
             self.update_min_filtered_block_number(0);
+            // The genesis block key marks a finished initialization, so it is written at last:
+            // if the process is interrupted before, the initialization is done again at next start.
+            self.db
+                .put(genesis_block_key, genesis_hash_and_txs_hash.as_slice())
+                .expect("db put genesis block should be ok");
         }
     }
 
